@@ -100,7 +100,10 @@ def dep5_case(draw):
             paths |= draw(witness_paths(pat))
         cop = [f"20{10 + k} Holder {k}"] + draw(st.lists(st.sampled_from(["2001 Second Line", "Copyright (C) 1999 Third, Inc.", "© Fourth <f@example.org>"]), max_size=2, unique=True))
         lic = draw(st.sampled_from(["MIT", "GPL-3.0-or-later", "Apache-2.0 OR MIT", f"LicenseRef-p{k}", "GPL-2.0-only WITH Classpath-exception-2.0"]))
-        para = {"files": pats, "cop": cop, "lic": lic, "body": draw(st.booleans()), "comment": draw(st.sampled_from([None, None, "A comment.", "Two\n lines"]))}
+        para = {"files": pats, "cop": cop, "lic": lic, "body": draw(st.booleans()), "comment": draw(st.sampled_from([None, None, "A comment.", "Two\n lines"])),
+                # layout of the continuation lines of the Copyright field: uneven indentation, trailing blanks
+                "indent": draw(st.lists(st.sampled_from([" ", "  ", "      ", "\t", " \t"]), min_size=3, max_size=3)),
+                "trail": draw(st.lists(st.sampled_from(["", "", " ", "  "]), min_size=3, max_size=3))}
         if k >= 2 and draw(st.integers(0, 2)) == 0:
             # a non-adjacent twin: exactly the same information as an earlier paragraph (only the order of paragraphs tells them apart)
             twin = paras[draw(st.integers(0, k - 2))]
@@ -133,9 +136,11 @@ def render_dep5(c):
         out.append("Files: " + p["files"][0])
         for f in p["files"][1:]:
             out.append(" " + f)
-        out.append("Copyright: " + p["cop"][0])
-        for x in p["cop"][1:]:
-            out.append("  " + x)
+        ind = p.get("indent") or ["  "] * 3
+        trl = p.get("trail") or [""] * 3
+        out.append("Copyright: " + p["cop"][0] + (trl[0] if len(p["cop"]) > 1 else ""))
+        for n, x in enumerate(p["cop"][1:]):
+            out.append(ind[n % 3] + x + (trl[(n + 1) % 3] if n + 2 < len(p["cop"]) else ""))
         out.append("License: " + p["lic"])
         if p["body"]:
             out += [" Full licence text", " .", " second paragraph"]
